@@ -36,13 +36,16 @@ type StrictBackend struct {
 	Ipt   *nf.IPTables
 	Ips   *nf.IPSets
 	Fault *FaultIPS // fault injection in front of Ips (ipset create)
+	Watch *Watch    // submission-time inspection of rule submissions (clause 4)
 }
 
 func NewStrictBackend() *StrictBackend {
 	ipt, ips := nf.NewIPTables(), nf.NewIPSets()
 	ipt.LinkSets(ips)
-	f := &FaultIPS{Interface: ips}
-	return &StrictBackend{Backend: Backend{Ipt: ipt, Ips: f}, Ipt: ipt, Ips: ips, Fault: f}
+	w := &Watch{}
+	f := &FaultIPS{Interface: &WatchIPS{Interface: ips, ips: ips, w: w}}
+	return &StrictBackend{Backend: Backend{Ipt: &WatchIPT{Interface: ipt, ipt: ipt, ips: ips, w: w}, Ips: f}, Ipt: ipt, Ips: ips,
+		Fault: f, Watch: w}
 }
 
 type WorldDef struct {
@@ -245,27 +248,33 @@ func (r *C15Run) newFailures() (submitted []string, all []nf.Event) {
 	return
 }
 
-// classifyFailures turns the failures of a step into clause-4 violations (or the D17 signature).
-func (r *C15Run) classifyFailures(step string, all []nf.Event) {
+// classifyFailures turns the failures of a step into clause-4 violations (or the D17 signature).  Dangling references
+// come from the submission-time inspection (Watch), NOT from what the fake answered: a submission that names a
+// missing chain / set is reported whether or not it was rejected.  faulted: an injected `ipset create` failure hit
+// this step.
+func (r *C15Run) classifyFailures(step string, all []nf.Event, faulted bool) {
 	for _, ev := range all {
 		r.rep.Hit("fail:" + ev.Op + ":" + ev.Class)
-		switch {
-		case ev.Op == "restore" && ev.Class == nf.ErrBusy && strings.Contains(ev.Arg, "-X GLX-PLCY-"):
+		if ev.Op == "restore" && ev.Class == nf.ErrBusy && strings.Contains(ev.Arg, "-X GLX-PLCY-") {
 			r.d17 = true
 			r.violate("stale-policy-chain-referenced-sync-fails", fmt.Sprintf("%s: the policy batch deletes (-X) a stale "+
 				"GLX-PLCY chain that a pod chain still references; iptables-restore fails atomically: %s", step, ev.Msg))
-		case (ev.Op == "restore" || ev.Op == "ensure-rule") && (ev.Class == nf.ErrNoTarget || ev.Class == nf.ErrNoChain || ev.Class == nf.ErrNoSet):
-			if r.d17 && ev.Class == nf.ErrNoTarget {
-				// consequence of the failed policy batch: the pod batch jumps to the policy chain that was not created
-				r.violate("stale-policy-chain-referenced-sync-fails", fmt.Sprintf("%s: pod-chain batch references a policy "+
-					"chain the failed policy batch did not create: %s", step, ev.Msg))
-			} else {
-				r.violate("dangling-reference:"+ev.Op+":"+ev.Class, fmt.Sprintf("%s: %s submitted a rule that references a "+
-					"missing chain/set: %s", step, ev.Op, ev.Msg))
-			}
-		case ev.Op == "add" && ev.Class == nf.ErrNotFound:
-			r.violate("dangling-reference:ipset-add:no-set", fmt.Sprintf("%s: ipset add to a set that does not exist: %s (%s)",
-				step, ev.Arg, ev.Msg))
+		}
+	}
+	for _, dv := range r.sb.Watch.Take() {
+		r.rep.Hit("dangling-at-submission:" + dv.Op + ":" + dv.Class)
+		podBatch := dv.Op == "restore" && strings.HasPrefix(dv.Batch, ":GLX-POD-") && dv.Class == nf.ErrNoTarget
+		switch {
+		case podBatch && r.d17:
+			// consequence of the failed policy batch: the pod batch jumps to the policy chain that was not created
+			r.violate("stale-policy-chain-referenced-sync-fails", fmt.Sprintf("%s: pod-chain batch references a policy "+
+				"chain the failed policy batch did not create: %s", step, dv.Detail))
+		case podBatch && faulted:
+			r.violate("pod-batch-after-failed-policy-sync", fmt.Sprintf("%s: syncRules aborted (ipset create failed) but the "+
+				"run went on to the pod chains, whose batch jumps to a policy chain that was never created: %s", step, dv.Detail))
+		default:
+			r.violate("dangling-reference:"+dv.Op+":"+dv.Class, fmt.Sprintf("%s: %s submitted a rule that names a chain / set "+
+				"which does not exist at that point: %s", step, dv.Op, dv.Detail))
 		}
 	}
 }
@@ -362,14 +371,12 @@ func (r *C15Run) Exec(line string) error {
 		}
 		sub, all := r.newFailures()
 		if r.sb.Fault.Hits > hits0 {
-			// an injected `ipset create` failure aborted syncRules half way (map order): no model step for it, and the
-			// failures it cascades into (pod batches jumping to policy chains that were not created) are its own
+			// an injected `ipset create` failure aborted syncRules half way (map order): no model step for it; what is
+			// submitted during this run is still judged (on the unchanged tree syncRules aborts BEFORE submitting rules)
 			r.rep.Hit("fullsync-with-injected-ipset-create-failure")
-			for _, ev := range all {
-				r.rep.Hit("fault-cascade:" + ev.Op + ":" + ev.Class)
-			}
+			r.classifyFailures("fullsync "+w[1]+" (one ipset create failed)", all, true)
 		} else {
-			r.classifyFailures("fullsync "+w[1], all)
+			r.classifyFailures("fullsync "+w[1], all, false)
 			r.drvSync(prior, wd, "fullsync", r.takeDump(), sub)
 		}
 		r.synced = w[1]
@@ -460,7 +467,7 @@ func (r *C15Run) Exec(line string) error {
 			return nil
 		}
 		sub, all := r.newFailures()
-		r.classifyFailures(line, all)
+		r.classifyFailures(line, all, false)
 		if steps != nil {
 			// policy event handlers are compositions of the two sync steps: correspondence of the composition
 			r.drvSync(prior, wd, "sync "+strings.Join(steps, " "), r.takeDump(), sub)
@@ -541,7 +548,7 @@ func (r *C15Run) check(w string) error {
 		return nil
 	}
 	_, all := r.newFailures()
-	r.classifyFailures("second fullsync "+w, all)
+	r.classifyFailures("second fullsync "+w, all, false)
 	again := r.takeDump()
 	if again.Canon() != got.Canon() {
 		// only sets that lost an option-changed entry differ, and the second sync restored exactly those entries?
